@@ -1,0 +1,60 @@
+//go:build verif
+
+package types
+
+// Contracts for the deductive verifier in /verif (govc). Comment-only; compiled only with -tags verif.
+
+// ---- ICS-20 transfer authorization (C36). sdk.Coins is modelled as a finite map denom -> amount.
+
+//@ spec func inStrs20(s []string, x string) bool = exists j int :: 0 <= j && j < len(s) && s[j] == x
+//@ spec func maxU256() int = 115792089237316195423570985008687907853269984665640564039457584007913129639935
+
+//@ contract UnboundedSpendLimit
+//@   pure
+//@   trusted the package-level maxUint256 is initialised to 2^256-1 and never reassigned (math/big arithmetic in the initialiser is outside the verified code)
+//@   ensures result == maxU256()
+
+//@ contract getAllocationIndex
+//@   pure
+//@   invariant #1 idx: 0 - 1 <= rangeindex && rangeindex < len(allocations) || (len(allocations) == 0 && rangeindex == 0 - 1)
+//@   invariant #1 no_match_so_far: forall j int :: 0 <= j && j <= rangeindex ==> !(allocations[j].SourceChannel == msg.SourceChannel && allocations[j].SourcePort == msg.SourcePort)
+//@   ensures range: result == 0 - 1 || (0 <= result && result < len(allocations))
+//@   ensures found_matches: result >= 0 ==> allocations[result].SourceChannel == msg.SourceChannel && allocations[result].SourcePort == msg.SourcePort
+//@   ensures first_match: forall j int :: result >= 0 && 0 <= j && j < result ==> !(allocations[j].SourceChannel == msg.SourceChannel && allocations[j].SourcePort == msg.SourcePort)
+//@   ensures none_matches: forall j int :: result == 0 - 1 && 0 <= j && j < len(allocations) ==> !(allocations[j].SourceChannel == msg.SourceChannel && allocations[j].SourcePort == msg.SourcePort)
+
+//@ contract isAllowedAddress
+//@   pure
+//@   invariant #1 idx: 0 - 1 <= rangeindex && rangeindex < len(allowedAddrs) || (len(allowedAddrs) == 0 && rangeindex == 0 - 1)
+//@   invariant #1 not_found_so_far: forall j int :: 0 <= j && j <= rangeindex ==> allowedAddrs[j] != receiver
+//@   ensures result == (len(allowedAddrs) == 0 || inStrs20(allowedAddrs, receiver))
+
+//@ contract validateMemo
+//@   pure
+//@   trusted the allow-list scan uses slices.ContainsFunc with a closure (outside the engine's subset); only the two closed-form cases are specified
+//@   ensures empty_list_needs_empty_memo: len(allowedMemos) == 0 ==> (err == nil) == (len(strings.TrimSpace(memo)) == 0)
+//@   ensures wildcard: len(allowedMemos) == 1 && allowedMemos[0] == AllowAllPacketDataKeys ==> err == nil
+
+//@ contract (*TransferAuthorization).Accept
+//@   let m = deref(dyn(msg, *MsgTransfer))
+//@   let A0 = deref(a).Allocations
+//@   let idx = getAllocationIndex(m, A0)
+//@   let denom = m.Token.Denom
+//@   let amount = m.Token.Amount
+//@   let limit0 = A0[idx].SpendLimit.AmountOf(denom)
+//@   let bounded = limit0 != maxU256()
+//@   requires forall j int, d string :: 0 <= j && j < len(deref(a).Allocations) ==> deref(a).Allocations[j].SpendLimit.AmountOf(d) <= maxU256()
+//@   modifies *a
+//@   ensures only_transfers: err == nil ==> isType(msg, *MsgTransfer)
+//@   ensures allocation_exists: err == nil ==> idx >= 0
+//@   ensures receiver_allowed: err == nil ==> isAllowedAddress(sdk.UnwrapSDKContext(goCtx), m.Receiver, A0[idx].AllowList)
+//@   ensures memo_allowed: err == nil ==> validateMemo(sdk.UnwrapSDKContext(goCtx), m.Memo, A0[idx].AllowedPacketData) == nil
+//@   ensures within_limit: err == nil && bounded ==> amount <= limit0
+//@   ensures sentinel_rejected_when_bounded: isType(msg, *MsgTransfer) && idx >= 0 && bounded && amount == maxU256() ==> err != nil
+//@   ensures accepted: err == nil ==> result0.Accept
+//@   ensures rejected_unchanged: err != nil ==> deref(a).Allocations == A0
+//@   ensures limit_decreases_exactly: forall d string :: err == nil && bounded && !result0.Delete && len(deref(a).Allocations) == len(A0) ==> deref(a).Allocations[idx].SpendLimit.AmountOf(d) == A0[idx].SpendLimit.AmountOf(d) - ite(d == denom, amount, 0)
+//@   ensures other_allocations_kept: forall j int :: err == nil && 0 <= j && j < len(A0) && j != idx && len(deref(a).Allocations) == len(A0) ==> deref(a).Allocations[j] == A0[j]
+//@   ensures exhausted_allocation_removed: err == nil && bounded && (forall d string :: A0[idx].SpendLimit.AmountOf(d) - ite(d == denom, amount, 0) == 0) ==> len(deref(a).Allocations) == len(A0) - 1 && (forall j int :: 0 <= j && j < len(A0) - 1 ==> deref(a).Allocations[j] == ite(j < idx, A0[j], A0[j + 1]))
+//@   ensures grant_deleted_when_empty: err == nil ==> result0.Delete == (len(deref(a).Allocations) == 0)
+//@   ensures update_persisted: err == nil && bounded && !result0.Delete ==> result0.Updated != nil && dyn(result0.Updated, *TransferAuthorization) != nil && deref(dyn(result0.Updated, *TransferAuthorization)).Allocations == deref(a).Allocations
